@@ -542,12 +542,18 @@ package bus
 //@   modifies c.messageIDMutex.lockw, c.messageID
 //@   ensures[C04] result.Header.Type == 1 && result.Header.Service == serviceID && result.Header.Object == objectID && result.Header.Action == actionID
 //@   ensures[C04] !c.messageIDMutex.lockw
+//@ ghostfield answertype int
 // (opt noplainrecv: Call may wait only in its select over reply / errors / cancel; a plain receive
 // would wait for one peer unconditionally and hang on a closed connection)
 //@ func (c *client) Call(cancel <-chan struct{}, serviceID uint32, objectID uint32, actionID uint32, payload []byte) (result []byte, err error)
 //@   tags C04 C11
 //@   opt recv_nonnil yes
 //@   opt noplainrecv yes
+// a call succeeds only with a message of type Reply (the filter does not look at the type: a Call,
+// Post, Event... carrying the same header must not complete the call successfully)
+//@   requires ErrCancelled != nil
+//@   ghost_at_return c.answertype := response.Header.Type
+//@   ensures[C04] err == nil ==> c.answertype == 2
 //@   requires c.endpoint != nil && !c.messageIDMutex.lockw
 //@   modifies everything
 //@   call Send#1: assert[C04,C11] c.endpoint.nhandlers == old(c.endpoint.nhandlers) + 1
